@@ -694,27 +694,50 @@ fn stringify(
             );
             format!("{s1}:{s2}")
         }
-        OpRangeKind { left, right } => format!(
-            "{}:{}",
-            stringify_operand(
+        OpRangeKind { left, right } => {
+            // The lexer reads a reference followed by ':' as the start of a range
+            // token, so `A1:(B1+1)` does not parse: when the right side needs
+            // parentheses, a left side that ends in a reference gets them too
+            let right_needs_parentheses = precedence(right) < 9;
+            let mut last = left.as_ref();
+            while let ImplicitIntersection { child, .. } = last {
+                last = child.as_ref();
+            }
+            let left_ends_in_reference = matches!(
+                last,
+                ReferenceKind { .. }
+                    | RangeKind { .. }
+                    | WrongReferenceKind { .. }
+                    | WrongRangeKind { .. }
+            );
+            let left_str = stringify(
                 left,
-                8,
                 context,
                 displace_data,
                 export_to_excel,
                 locale,
-                language
-            ),
-            stringify_operand(
-                right,
-                9,
-                context,
-                displace_data,
-                export_to_excel,
-                locale,
-                language
+                language,
+            );
+            let left_str =
+                if precedence(left) < 8 || (right_needs_parentheses && left_ends_in_reference) {
+                    format!("({left_str})")
+                } else {
+                    left_str
+                };
+            format!(
+                "{}:{}",
+                left_str,
+                stringify_operand(
+                    right,
+                    9,
+                    context,
+                    displace_data,
+                    export_to_excel,
+                    locale,
+                    language
+                )
             )
-        ),
+        }
         OpConcatenateKind { left, right } => format!(
             "{}&{}",
             stringify_operand(
